@@ -6,7 +6,7 @@ ALL = [f"C{i:02d}" for i in range(1, 21)]
 PENDING_REASON = "machinery for this property is not built yet in this revision (work in progress; see DESIGN.md §10)"
 NOT_APPLICABLE = {}
 # properties whose check the integrator has run green on the current tree (manifest claims only these)
-READY = ["C01", "C02", "C03", "C04", "C06", "C07", "C08", "C09", "C10", "C11", "C12", "C13", "C14", "C16", "C17", "C18", "C19", "C20"]
+READY = [f"C{i:02d}" for i in range(1, 21)]
 
 
 def claimed():
